@@ -103,6 +103,9 @@ def generate(prop, seed, tier):
                 d["method"] = S.pick(["mle", None, None])  # None: the model's default (MLE) is filled in
         elif S.chance(0.5):
             d["method"] = S.pick(["mle", "MLE"])
+        if cond[i] is not None and S.chance(0.35):
+            # a template constructed with start values of the user's own (not the class defaults)
+            d["start"] = {p: core.r6(d["truth"][p] * S.uni(0.7, 1.4)) for p in free}
         if cond[i] is not None:
             for p in free:
                 shape = S.wpick([("poly1", 5), ("power3", 1), ("exp3", 1)])
@@ -249,7 +252,9 @@ def make_slicer(sp, data_max):
 def make_template(d):
     fam, fixed, free = TEMPLATES[d["template"]]
     cls = fam_class(fam)
-    return cls(**{"f_" + p: v for p, v in fixed.items()})
+    kw = {"f_" + p: v for p, v in fixed.items()}
+    kw.update(d.get("start") or {})  # the user's own start values for the estimator
+    return cls(**kw)
 
 
 def make_deps(deps):
